@@ -422,14 +422,64 @@ func (fa *FA) expandCall(v *ssa.Call) *Lin {
 	return linAtom(id)
 }
 
+// canonLoad maps a load of an indexed element to the first equal load in the
+// same block (same base and index values, no store or call in between): go/ssa
+// performs no common-subexpression elimination.
+func canonLoad(v *ssa.UnOp) *ssa.UnOp {
+	ia, ok := v.X.(*ssa.IndexAddr)
+	if !ok {
+		return v
+	}
+	b := v.Block()
+	res := v
+	for i := instrIndex(v) - 1; i >= 0; i-- {
+		switch x := b.Instrs[i].(type) {
+		case *ssa.Store:
+			// a store of a value of another type cannot change the loaded element
+			if types.Identical(x.Val.Type(), v.Type()) {
+				return res
+			}
+		case *ssa.MapUpdate:
+		case ssa.CallInstruction:
+			if bi, ok := x.Common().Value.(*ssa.Builtin); ok {
+				switch bi.Name() {
+				case "len", "cap", "min", "max":
+					continue
+				case "copy":
+					if st, ok := x.Common().Args[0].Type().Underlying().(*types.Slice); ok && !types.Identical(st.Elem(), v.Type()) {
+						continue
+					}
+				}
+			}
+			return res
+		case *ssa.UnOp:
+			if x.Op == token.MUL {
+				if ia2, ok := x.X.(*ssa.IndexAddr); ok && ia2.X == ia.X && ia2.Index == ia.Index {
+					res = x
+				}
+			}
+		}
+	}
+	return res
+}
+
 // expandLoad handles *addr for integer cells.
 func (fa *FA) expandLoad(v *ssa.UnOp) *Lin {
 	if !isInteger(v.Type()) {
 		return linAtom(fa.valAtom(v))
 	}
+	if c := canonLoad(v); c != v {
+		return fa.expand(c)
+	}
 	// table lookup in an immutable global array
 	if ia, ok := v.X.(*ssa.IndexAddr); ok {
-		if g, ok := ia.X.(*ssa.Global); ok {
+		var g *ssa.Global
+		if gg, ok := ia.X.(*ssa.Global); ok {
+			g = gg
+		} else if ld, ok := ia.X.(*ssa.UnOp); ok && ld.Op == token.MUL {
+			g, _ = ld.X.(*ssa.Global)
+		}
+		if g != nil {
 			if rg, ok := fa.A.tables[g]; ok {
 				id := fa.valAtom(v)
 				a := fa.A.at(id)
@@ -642,6 +692,9 @@ func (fa *FA) sliceDesc1(v ssa.Value) *SliceDesc {
 		return d
 	case *ssa.UnOp:
 		if v.Op == token.MUL {
+			if c := canonLoad(v); c != v {
+				return fa.sliceDesc(c)
+			}
 			key := fa.mem.addrKey(v.X)
 			if key != "" {
 				if ver := fa.mem.versionAt(v, key); ver != nil {
@@ -779,7 +832,12 @@ func (fa *FA) dataAtom(root ssa.Value) AtomID {
 	})
 }
 
-func (fa *FA) sizeof(t types.Type) int64 {
+func (fa *FA) sizeof(t types.Type) (sz int64) {
+	defer func() {
+		if recover() != nil {
+			sz = 1 // type-parameter dependent size (generic body)
+		}
+	}()
 	return types.SizesFor("gc", "amd64").Sizeof(t)
 }
 
